@@ -341,8 +341,10 @@ impl ChannelManager {
     let mut channel_inner = channel.0.write().await;
 
     // Check if the channel was removed while we were waiting for the lock.
-    // This can happen if the last member left, triggering channel removal.
-    if !channels.contains_key(&handler) {
+    // This can happen if the last member left, triggering channel removal. The map must still hold
+    // this very channel: another JOIN may meanwhile have created a new one under the same name, and
+    // joining the removed one would leave the user in a channel nobody else can reach.
+    if !channels.get(&handler).is_some_and(|entry| Arc::ptr_eq(&entry.value().0, &channel.0)) {
       return Err(
         narwhal_protocol::Error::new(ResourceConflict)
           .with_id(correlation_id)
